@@ -330,7 +330,11 @@ def curated() -> Dict[str, World]:
         "default", {"p.src": ["0", "1"], "q.src": ["0", "1"]},
         {"default.x.do": [S(deps=["%.src"])], "top.do": [S(deps=["p.x", "q.x"])],
          "p.x.do": [S(deps=["%.src"], tag="specific", out="file")]},
-        ["top", "p.x", "q.x"], ["top", "p.x"], notes="p.x.do starts absent; see dofiles_absent")
+        ["top", "p.x", "q.x"], ["top", "p.x"], notes="p.x.do starts absent; see dofiles_absent",
+        # p.x built by its own rule; and: its own rule removed again and the default rule back in charge (where a
+        # re-created p.x.do has to be noticed through the "must not exist" edge recorded by that last build)
+        prefixes=[[["dovar", "p.x.do", 0], ["ifchange", ["top"]]],
+                  [["dovar", "p.x.do", 0], ["ifchange", ["top"]], ["dorm", "p.x.do"], ["ifchange", ["top"]]]])
     W["takeover"] = World(   # p.x has its own rule, q.x is built by the default rule; removing p.x.do lets the default rule take p.x over
         "takeover", {"s": V3, "u": ["7", "8"]},
         {"default.x.do": [S(deps=["s"])], "top.do": [S(deps=["p.x", "q.x"])], "p.x.do": [S(deps=["s", "u"], tag="specific", out="file")]},
@@ -363,6 +367,12 @@ def curated() -> Dict[str, World]:
         "fail", {"s": ["0", "1"], "flag": ["0", "1"]},
         {"top.do": [S(deps=["m", "h"])], "m.do": [S(deps=["s"], fail="flag")], "h.do": [S(deps=["s"], out="file")]},
         ["top", "m", "h"], ["top", "m"])
+    W["csum-fail"] = World(   # a checksummed node that can fail: after the failure is repaired its checksum is what it was
+        "csum-fail", {"s": ["0", "1", "2"], "flag": ["0", "1"]},
+        {"top.do": [S(deps=["c"])], "c.do": [S(kind="csum", deps=["s"], fail="flag", proj=True, out="file")]},
+        ["top", "c"], ["top", "c"],
+        prefixes=[[["ifchange", ["top"]], ["edit", "flag", "1"], ["ifchange", ["top"]]],
+                  [["ifchange", ["top"]], ["edit", "flag", "1"], ["redo", ["c"]]]])
     return W
 
 
